@@ -65,6 +65,16 @@ CHECKS = {
              "of ampycloud: that scikit-learn/statsmodels/numpy/pandas do not raise inside their documented domain - that "
              "residue is searched (all scene families, random in-domain parameters; any exception is a violation).",
         ref='§6 C08', technique='Lean 4 proof of totality of the cascade model + crash search on the real code (search part is exploration)'),
+    'C09': dict(
+        category='other',
+        text="PARTIAL. Proved on the model: the effect discipline - tmp_seed (save/seed/body/restore in finally) leaves the "
+             "global random state unchanged for every body, raising or not, and the body's outcome is independent of the prior "
+             "state; no API operation changes the global state along any history; processing is a function of data, parameters "
+             "and kernel answers, independent of what other chunks did. Sampled on the real code, not proved (no model of "
+             "ampycloud can exhibit it): bit-identical SHA-256 of data/ids/tables/messages under different prior RNG states, "
+             "after other runs, in fresh processes with different PYTHONHASHSEED; RNG-state digest before/after every API "
+             "operation incl. canonical_demo_data and tmp_seed with a raising body.",
+        ref='§6 C09', technique='Lean 4 proof of the effect discipline + sampled bit-reproducibility (search part is exploration)'),
     'C10': dict(
         text="Lean theorems: in the model a frame's columns are read by name and its index is never read (F1 repaired by an "
              "index reset), so relabelling, extra columns and dtype variants leave runFrom unchanged - immediate in the model. "
@@ -127,6 +137,15 @@ CHECKS = {
              "NaN and does not influence the other values. Tie: real functions vs model (1e-9), NaN positions and order "
              "exactly; binary64 round trip within 1e-6 only sampled.",
         ref='§6 C19', technique='Lean 4 proof over Rat (piecewise-linear monotonicity, inverse) + checked-oracle correspondence'),
+    'C20': dict(
+        category='other',
+        text="PARTIAL. Proved on the model: every table position the plot reads exists (n_* = table length for every chunk run "
+             "returns), marker/colour indices are taken modulo the list length (any number of sets), the style context is "
+             "restored whatever the body does, the plot reads the chunk only. Searched on the real code, not proved "
+             "(matplotlib cannot be modelled): diagnostic() on chunks from all families incl. no hits / single hit / VV / "
+             "zero-okta / more sets than marker styles x upto x show_ceilos x ref-METAR x formats, in sequence in one process: no "
+             "exception, chunk digest unchanged, rcParams equal, no figure open, exactly the requested files.",
+        ref='§6 C20', technique='Lean 4 proof of the indexing/restore discipline + side-effect search on the real plotting code'),
     'C17': dict(
         text="Lean theorems C17_length/_char/_prefix/_at_most_three/_zero_never about the model of "
              "icao.significant_cloud for every integer sequence of any length; the model is tied to the real "
